@@ -507,3 +507,19 @@ func (e *polyEnv) tripCount(fset *token.FileSet, loop ast.Stmt, idx int) poly {
 	}
 	return opaque
 }
+
+// localClosure resolves an expression naming a local variable that is defined exactly once by a
+// function literal (ff := func(){…}) to that literal; a literal resolves to itself.
+func localClosure(info *types.Info, defs map[types.Object][]ast.Expr, e ast.Expr) *ast.FuncLit {
+	switch x := ast.Unparen(e).(type) {
+	case *ast.FuncLit:
+		return x
+	case *ast.Ident:
+		if ds := defs[info.ObjectOf(x)]; len(ds) == 1 && ds[0] != nil {
+			if fl, ok := ast.Unparen(ds[0]).(*ast.FuncLit); ok {
+				return fl
+			}
+		}
+	}
+	return nil
+}
